@@ -63,7 +63,8 @@ REQUIRED = dict(
              'bin:wider-than-native', 'bin:narrower-than-native', 'bin:partly-outside', 'bin:no-overlap',
              'bin:targets-overlap-each-other', 'bin:spans-native-gap',
              'ndim:1', 'ndim:2', 'error:yes', 'error:no', 'native-order:shuffled', 'target-order:shuffled',
-             'call:2d-with-error', 'route:bin_model', 'route:forward-model'])
+             'call:2d-with-error', 'route:bin_model', 'route:forward-model', 'same-binner:narrower-widths',
+             'same-binner:derived-widths', 'same-binner:other-grid-same-length', 'same-binner:first-again'])
 EPS = float(np.finfo(float).eps)
 RTOL = 1e-12
 
@@ -660,6 +661,30 @@ def wl_flux(ctx, rng):
         ctx.close('flux:linearity', np.asarray(r5[1], dtype=float)[..., judged],
                   (a_ * v0 + b_ * np.asarray(r4[1], dtype=float))[..., judged], RTOL,
                   atol=(4 * rel[judged] + 1e-13) * scale, call=dict(ctx.features['last_call']))
+
+
+    # (e) the SAME binner object on the same native centres with other native widths, then on another native grid of
+    #     the same length, then the first call again: every execution is judged by the tap, so weights kept from an
+    #     earlier call (a cache keyed on the centres, on the length, ...) show as overlap-mean failures
+    steps = []
+    for _ in range(int(rng.integers(1, 4))):
+        kind = ['narrower-widths', 'derived-widths', 'other-grid-same-length', 'first-again'][rng.integers(0, 4)]
+        if kind == 'narrower-widths':
+            w2 = nw * rng.uniform(0.3, 1.0, n)          # nested in the original bins: still ordered and disjoint
+            guarded(B.bindown, c, f, grid_width=w2, error=e)
+        elif kind == 'derived-widths':
+            if nk in ('edges-gaps',):
+                continue                                  # mid-point bins of a gappy grid are another (legal) native grid
+            guarded(B.bindown, c, f, grid_width=None, error=e)
+        elif kind == 'other-grid-same-length':
+            shift = float(rng.uniform(-0.4, 0.4)) * float(np.min(nw))
+            scale_w = float(rng.uniform(0.5, 1.0))
+            guarded(B.bindown, c + shift, f, grid_width=nw * scale_w, error=e)
+        else:
+            guarded(B.bindown, c, f, grid_width=w, error=e)
+        steps.append(kind)
+    for k in steps:
+        ctx.observe('same-binner:' + k)
 
 
 def wl_flux2derr(ctx, rng):
